@@ -1,6 +1,7 @@
 package harness
 
 import (
+	"context"
 	"encoding/json"
 	"fmt"
 	"net"
@@ -30,6 +31,7 @@ type asmArr struct {
 type asmCase struct {
 	Cfg     map[string]asmLvl   `json:"cfg"`
 	Arrives map[string][]asmArr `json:"arrives"`
+	Cut     bool                `json:"cut"` // the request is cut off before the reply can arrive (short timeout or early context deadline)
 }
 
 func asmValue(comp, class, lvl string) string {
@@ -70,6 +72,7 @@ func TestC18Asm(t *testing.T) {
 			"ua": c.Get("User-Agent"), "referer": c.Get("Referer"), "param": c.Params("id")})
 	})
 	app.Get("/slow", func(c fiber.Ctx) error { time.Sleep(150 * time.Millisecond); return c.SendString("slow") })
+	app.Get("/veryslow", func(c fiber.Ctx) error { time.Sleep(1500 * time.Millisecond); return c.SendString("late") })
 	ln := fasthttputil.NewInmemoryListener()
 	go func() { _ = app.Listener(ln, fiber.ListenConfig{DisableStartupMessage: true}) }()
 	var n, nSkipped, nBoth, nTimeout int
@@ -78,7 +81,7 @@ func TestC18Asm(t *testing.T) {
 		if err := json.Unmarshal(line, &cs); err != nil {
 			t.Fatalf("bad case %v", err)
 		}
-		if tl, ok := cs.Cfg["timeout"]; ok && (tl.Client != "none" || tl.Request != "none") {
+		if tl, ok := cs.Cfg["timeout"]; ok && (tl.Client != "none" || tl.Request != "none" || cs.Cfg["ctx"].Request != "none") {
 			// the timeout, observed on a slow endpoint (150 ms): long = 20 s, short = 30 ms.  A request whose effective timeout is long
 			// is answered (a short one is not asserted: whether 30 ms or the reply comes first is timing); then a request of another
 			// client without any timeout, which may well be served by the pooled objects of the first, is answered too.
@@ -94,7 +97,6 @@ func TestC18Asm(t *testing.T) {
 				if tl.Request != "none" {
 					rq.SetTimeout(dur[tl.Request])
 				}
-				eff := cs.Arrives["timeout"]
 				// first on the fast endpoint, where also a short timeout normally lets the request complete and be released to the pool
 				if respF, errF := cl.R().Get("http://asm.test/p/x"); errF == nil {
 					respF.Close()
@@ -104,13 +106,35 @@ func TestC18Asm(t *testing.T) {
 						respF.Close()
 					}
 				}
-				resp, err := rq.Get("http://asm.test/slow")
-				if err == nil {
-					resp.Close()
+				switch cs.Cfg["ctx"].Request {
+				case "later":
+					ctx, cancel := context.WithTimeout(context.Background(), 60*time.Second)
+					defer cancel()
+					rq.SetContext(ctx)
+				case "sooner":
+					ctx, cancel := context.WithTimeout(context.Background(), 30*time.Millisecond)
+					defer cancel()
+					rq.SetContext(ctx)
 				}
-				if len(eff) == 1 && eff[0].V == "plain" && err != nil {
-					o.violation(map[string]any{"check": "assembly-timeout", "prop": "C18", "cfg": cs.Cfg, "what": "a request with a long effective timeout was cut off", "observed": err.Error()})
-					return
+				if cs.Cut {
+					// the reply cannot arrive before 1.5 s; whatever ends first (30 ms) must end the request with an error
+					t0 := time.Now()
+					respC, errC := rq.Get("http://asm.test/veryslow")
+					if errC == nil {
+						body := string(respC.Body())
+						respC.Close()
+						o.violation(map[string]any{"check": "assembly-timeout", "prop": "C18", "cfg": cs.Cfg, "what": "a request whose timeout / context deadline passed long before the reply was handed the late reply",
+							"observed": body, "after_ms": time.Since(t0).Milliseconds()})
+						return
+					}
+				} else {
+					resp, err := rq.Get("http://asm.test/slow")
+					if err == nil {
+						resp.Close()
+					} else {
+						o.violation(map[string]any{"check": "assembly-timeout", "prop": "C18", "cfg": cs.Cfg, "what": "a request with a long (or no) effective timeout and no early context deadline was cut off", "observed": err.Error()})
+						return
+					}
 				}
 				cl2 := client.New().SetDial(func(string) (net.Conn, error) { return ln.Dial() })
 				resp2, err2 := cl2.R().Get("http://asm.test/slow")
